@@ -19,7 +19,7 @@ for _v in ("OPENBLAS_NUM_THREADS", "OMP_NUM_THREADS", "MKL_NUM_THREADS"):
     os.environ.setdefault(_v, "1")
 
 from . import c05_util as U
-from .common import SRC, add_failure, bump, load_known, new_outcome, rat, unrat
+from .common import LEAN, SRC, VERIF, add_failure, bump, load_known, new_outcome, rat, unrat
 
 PROP = "C05"
 PROPS_FILES = [
@@ -28,6 +28,8 @@ PROPS_FILES = [
     "CogentModel/Props/C05Expm.lean",
     "CogentModel/Props/C05Alphabet.lean",
     "CogentModel/Props/C05GenStat.lean",
+    "CogentModel/Props/C05Gen.lean",
+    "CogentModel/Props/C05Path.lean",
 ]
 LEAN_TARGETS = [
     "CogentModel.Props.C05",
@@ -35,8 +37,27 @@ LEAN_TARGETS = [
     "CogentModel.Props.C05Expm",
     "CogentModel.Props.C05Alphabet",
     "CogentModel.Props.C05GenStat",
+    "CogentModel.Props.C05Gen",
+    "CogentModel.Props.C05Path",
 ]
 DRIVER = "drv_c05"
+GEN_PATH = LEAN / "CogentModel" / "Gen" / "C05Inst.lean"
+
+
+def generate(ctx):
+    """translator step: _is_instantaneous / _is_any_indel / _Codon._is_instantaneous, the long_indels class constants,
+    ExpDefn.calc and _EigenPade.__call__ -> Gen/C05Inst.lean (every run, from the CURRENT source of the tree under test)"""
+    import sys
+
+    if str(VERIF) not in sys.path:
+        sys.path.insert(0, str(VERIF))
+    from translator import c05_inst2lean
+
+    text, problems = c05_inst2lean.translate(SRC)
+    if text is not None and c05_inst2lean.write_if_changed(GEN_PATH, text):
+        ctx.notes.append("Gen/C05Inst.lean was rewritten (source of the translated functions differs from the last generated text, or first run)")
+    return [f"c05_inst2lean: {p}" for p in problems]
+
 TRUSTED = [
     "hand-written models lean/CogentModel/Model/RateMatrix.lean (calcQ, exchangeability, motif-prob models, rate classes) "
     "and Model/Expm.lean (Taylor, Pade + exact Gauss-Jordan solve), tied by exact-rational shadow evaluation against "
@@ -44,6 +65,9 @@ TRUSTED = [
     "predicate masks / param_pick tables are read from the model object as data (checked independently by the textbook "
     "reconstruction of 15 named models in spec_check)",
     "Mathlib NormedSpace.exp for the real-exponential theorems (Props/C05Real.lean)",
+    "translator/c05_inst2lean.py (ast -> Lean, ~400 lines) and the meaning of its primitives in Model/C05GenPrelude.lean "
+    "(countZip, index2, charAt, tryExcept); the translated predicates and back-end selection are additionally run against "
+    "the real methods on an exhaustive small box of motif pairs / all settings / all exception kinds",
 ]
 ASSUMPTIONS = [
     "float rounding, LAPACK eig/inv accuracy and numpy.maximum(result, 0) clipping are not modelled: back-ends are compared "
@@ -288,6 +312,8 @@ def correspondence(ctx):
     _corr_expm(ctx, out)
     _corr_solve(ctx, out)
     _corr_hypotheses(ctx, out)
+    _corr_gen(ctx, out)
+    _corr_path(ctx, out)
     return out
 
 
@@ -533,6 +559,460 @@ def _corr_hypotheses(ctx, out):
 
 
 # --------------------------------------------------------------------------
+# translated decision logic: instantaneous-change predicates and the selection of the exponentiator
+# --------------------------------------------------------------------------
+BOX_CHARS = "AC-"
+
+
+def _stub_models():
+    """objects that run the REAL _is_instantaneous / _is_any_indel methods on motifs of any length"""
+    from cogent3.evolve import substitution_model as sub
+
+    class _Word(sub._ContinuousSubstitutionModel):
+        def __init__(self, gapmotif):
+            self.gapmotif = gapmotif
+
+    class _Cod(sub._Codon, _Word):
+        pass
+
+    return _Word, _Cod
+
+
+def _inst_cases(ctx, rng):
+    """(codon?, words) lists: every word over {A, C, -} of length 1..3 (4 in thorough), plus random longer pairs where
+    the second word is the first with one run replaced by gaps / letters (the interesting neighbourhood)"""
+    import itertools
+
+    cases = []
+    for L in (1, 2, 3) + ((4,) if ctx.thorough else ()):
+        words = ["".join(w) for w in itertools.product(BOX_CHARS, repeat=L)]
+        cases.append((False, words))
+        cases.append((True, words))
+    for _ in range(ctx.budget(120, 1200)):
+        L = rng.randint(4, 9)
+        x = [rng.choice("ACGT-") if rng.random() < 0.8 else "-" for _ in range(L)]
+        y = list(x)
+        for _k in range(rng.choice([1, 1, 2, 3])):
+            a = rng.randrange(L)
+            b = min(L, a + rng.choice([1, 1, 2, 3, L]))
+            kind = rng.random()
+            for i in range(a, b):
+                y[i] = "-" if kind < 0.5 else (rng.choice("ACGT") if kind < 0.8 else x[i])
+        if rng.random() < 0.3:
+            x, y = y, x
+        cases.append((rng.random() < 0.3, ["".join(x), "".join(y)]))
+    return cases
+
+
+def _spec_inst(x, y, codon):
+    """which motif changes are instantaneous, written from the documentation: a change at exactly one position, or
+    (word models) one contiguous insertion / deletion: every differing position pairs a gap with a non-gap, the gaps are
+    all in the same motif, and the differing positions are adjacent.  Codon models: only a single-nucleotide change, or
+    a whole-codon indel."""
+    d = [k for k in range(len(x)) if x[k] != y[k]]
+    if codon:
+        gm = "-" * len(x)
+        if x == gm or y == gm:
+            return x != y
+        return len(d) == 1
+    if len(d) <= 1:
+        return len(d) == 1
+    in_x = all(x[k] == "-" for k in d)
+    in_y = all(y[k] == "-" for k in d)
+    return (in_x or in_y) and d == list(range(d[0], d[-1] + 1))
+
+
+def _real_inst_mask(words, codon):
+    Word, Cod = _stub_models()
+    m = (Cod if codon else Word)("-" * len(words[0]))
+    return [[int(bool(m._is_instantaneous(x, y))) for y in words] for x in words]
+
+
+def _classify_constructor(mk):
+    """which exponentiator constructor `mk` is, by behaviour on three probe matrices: a regular generator, a defective
+    matrix (the reconstruction test of CheckedExponentiator fails, the unchecked one returns), a matrix with a NaN
+    (numpy.linalg.eig raises LinAlgError; Pade's constructor does not look at Q)"""
+    np = _np()
+
+    def probe(Q):
+        try:
+            with warnings.catch_warnings():
+                warnings.simplefilter("ignore")
+                r = mk(np.array(Q, float))
+            return type(r).__name__
+        except np.linalg.LinAlgError:
+            return "raise:linalg"
+        except ArithmeticError:
+            return "raise:arithmetic"
+        except Exception as e:
+            return f"raise:{type(e).__name__}"
+
+    sig = (probe([[-1.0, 1.0], [1.0, -1.0]]), probe([[0.0, 1.0], [0.0, 0.0]]), probe([[float("nan"), 1.0], [1.0, -1.0]]))
+    table = {
+        ("PadeExponentiator", "PadeExponentiator", "PadeExponentiator"): "pade",
+        ("EigenExponentiator", "EigenExponentiator", "raise:linalg"): "fast",
+        ("EigenExponentiator", "raise:arithmetic", "raise:linalg"): "checked",
+        ("EigenExponentiator", "PadeExponentiator", "PadeExponentiator"): "eigenPade(checked)",
+        ("EigenExponentiator", "EigenExponentiator", "PadeExponentiator"): "eigenPade(fast)",
+    }
+    return table.get(sig, "?" + "/".join(sig))
+
+
+class _StrLike:
+    """ExpDefn.calc applies str() to its argument"""
+
+    def __init__(self, s):
+        self.s = s
+
+    def __str__(self):
+        return self.s
+
+
+def _corr_gen(ctx, out):
+    np = _np()
+    from cogent3.evolve.substitution_calculation import ExpDefn, _EigenPade
+    from cogent3.maths.matrix_exponentiation import PadeExponentiator
+
+    rng = ctx.subrng("gen")
+    code = {c: i for i, c in enumerate("ACGT-")}
+    # --- instantaneous-change predicates: real methods vs hand model vs translated definitions
+    cases = _inst_cases(ctx, rng)
+    reqs = [("instbox", dict(words=[[code[c] for c in w] for w in words], gap=code["-"], gapmotif=[code["-"]] * len(words[0]), codon=codon))
+            for codon, words in cases]
+    for (codon, words), rep in zip(cases, ctx.driver.batch(reqs)):
+        out["evaluations"] += 1
+        real = _real_inst_mask(words, codon)
+        kind = "codon" if codon else "word"
+        bump(out, "instbox", f"{kind}:L={len(words[0])}" if len(words) > 2 else f"{kind}:random-pair")
+        if "hand" not in rep:
+            add_failure(out, "corr", "instbox: driver error", dict(words=words, codon=codon), "masks", rep, sig="corr:instbox:err")
+            continue
+        for which in ("hand", "gen"):
+            if rep[which] != real:
+                bad = [(words[i], words[j]) for i in range(len(words)) for j in range(len(words)) if rep[which][i][j] != real[i][j]]
+                add_failure(out, "corr", f"_is_instantaneous ({kind}): {'hand model' if which == 'hand' else 'translated definition'} != real method",
+                            dict(x=bad[0][0], y=bad[0][1], codon=codon, gapmotif="-" * len(words[0])),
+                            dict(model=rep[which][words.index(bad[0][0])][words.index(bad[0][1])]),
+                            dict(real=real[words.index(bad[0][0])][words.index(bad[0][1])], n_mismatches=len(bad)), sig=f"corr:instbox:{which}:{kind}")
+        if any(real[i][j] for i in range(len(words)) for j in range(len(words)) if sum(a != b for a, b in zip(words[i], words[j])) > 1):
+            out["nontrivial"].add(("instbox", kind, words[0], words[-1]))
+    # --- ExpDefn.calc: every accepted setting and some that are not
+    settings = ["eigen", "checked", "pade", "either", "taylor", "Either", "", "pade ", "eigen,pade"]
+    reps = ctx.driver.batch([("expselect", dict(expm=s)) for s in settings])
+    for s_, rep in zip(settings, reps):
+        out["evaluations"] += 1
+        for arg, how in ((s_, "str"), (_StrLike(s_), "str()-able")):
+            try:
+                real = _classify_constructor(ExpDefn.calc(None, arg))
+            except KeyError:
+                real = None
+            bump(out, "expselect", f"{s_!r}:{real}")
+            for which in ("hand", "gen"):
+                if rep.get(which) != real:
+                    add_failure(out, "corr", f"ExpDefn.calc: {'hand table' if which == 'hand' else 'translated definition'} != real selection",
+                                dict(expm=s_, passed_as=how), rep.get(which), real, sig=f"corr:expselect:{which}")
+        if real is not None:
+            out["nontrivial"].add(("expselect", s_))
+    # --- _EigenPade.__call__: every outcome of the inner constructor
+    outcomes = [("ok", None), ("arithmetic", ArithmeticError), ("arithmetic", FloatingPointError), ("arithmetic", ZeroDivisionError),
+                ("arithmetic", OverflowError), ("linalg", np.linalg.LinAlgError), ("other", ValueError), ("other", KeyError),
+                ("other", RuntimeError)]
+    reqs = [("eigenpade", dict(inner=inner, outcome=o)) for inner in ("fast", "checked") for o, _ in outcomes]
+    reps = ctx.driver.batch(reqs)
+    k = 0
+    for inner in ("fast", "checked"):
+        for o, exc in outcomes:
+            rep = reps[k]
+            k += 1
+            out["evaluations"] += 1
+            sentinel = object()
+
+            def eigen(Q, exc=exc, sentinel=sentinel):
+                if exc is None:
+                    return sentinel
+                raise exc("probe")
+
+            try:
+                with warnings.catch_warnings():
+                    warnings.simplefilter("ignore")
+                    r = _EigenPade(eigen=eigen)(np.identity(2))
+                real = inner if r is sentinel else ("pade" if isinstance(r, PadeExponentiator) else f"?{type(r).__name__}")
+            except np.linalg.LinAlgError:
+                real = "raise:linalg"
+            except ArithmeticError:
+                real = "raise:arithmetic"
+            except Exception:
+                real = "raise:other"
+            bump(out, "eigenpade", f"{o}->{real}")
+            for which in ("hand", "gen"):
+                if rep.get(which) != real:
+                    add_failure(out, "corr", f"_EigenPade.__call__: {'hand model' if which == 'hand' else 'translated definition'} != real fall-back",
+                                dict(inner_raises=getattr(exc, "__name__", None)), rep.get(which), real, sig=f"corr:eigenpade:{which}")
+            if real == "pade":
+                out["nontrivial"].add(("eigenpade", inner, getattr(exc, "__name__", None)))
+
+
+# --------------------------------------------------------------------------
+# products of transition matrices along the paths of the tree (time-heterogeneous / discrete-time models)
+# --------------------------------------------------------------------------
+PATHS = {"a": ["a"], "b": ["b"], "e": ["e"], "c": ["e", "c"], "d": ["e", "d"]}
+
+
+def _node_table(lf):
+    """{node: distribution} from lf.get_motif_probs_by_node(), None when the model does not support it"""
+    np = _np()
+    try:
+        with warnings.catch_warnings():
+            warnings.simplefilter("ignore")
+            d = lf.get_motif_probs_by_node()
+    except (NotImplementedError, AssertionError):
+        # time-reversible 'monomers' models say NotImplementedError; for a non-reversible model with a monomer(s) motif-prob
+        # model the method trips over its own DictArray template (cats vs dims) -- an API limitation outside this property
+        return None
+    names = list(d.template.names[0])
+    arr = np.array(d.array, float)
+    return {nm: arr[i] for i, nm in enumerate(names)}
+
+
+def _hetero_lf(sm, label, rng, out=None):
+    """a likelihood function whose edges differ: per-edge parameter values for continuous models, random row-stochastic
+    psubs for the discrete-time models"""
+    np = _np()
+    lf, info = _draw(sm, label, rng)
+    if U.is_discrete(sm):
+        n = len(sm.get_alphabet())
+        with warnings.catch_warnings():
+            warnings.simplefilter("ignore")
+            for e in U.EDGES:
+                lf.set_param_rule("psubs", edge=e, init=np.array([U.rand_probs(rng, n) for _ in range(n)]))
+        return lf, info, "discrete"
+    names = list(getattr(sm, "parameter_order", []))
+    kind = "homogeneous"
+    if names and label != "user:GeneralStationary" and rng.random() < 0.7:
+        with warnings.catch_warnings():
+            warnings.simplefilter("ignore")
+            for e in rng.sample(U.EDGES, rng.choice([1, 2, 3])):
+                lf.set_param_rule(rng.choice(names), edge=e, init=U.rand_param(rng))
+        kind = "time-heterogeneous"
+    return lf, info, kind
+
+
+def _corr_path(ctx, out):
+    """LikelihoodFunction._nodeMotifProbs (numpy.dot(mprobs, psub) down the tree) vs the model's fold along each root path"""
+    np = _np()
+    rng = ctx.subrng("path")
+    labels = ["GN", "ssGN", "user:General", "user:NRN-fwd", "user:GeneralStationary", "BH", "DT", "user:NRDi-fwd"]
+    reqs, meta = [], []
+    for label in labels:
+        sm = _get_model(out, label)
+        if sm is None:
+            continue
+        for _ in range(ctx.budget(1, 5) if len(sm.get_alphabet()) > 4 else ctx.budget(2, 12)):
+            lf, info, kind = _hetero_lf(sm, label, rng)
+            tab = _node_table(lf)
+            if tab is None:
+                bump(out, "path_unsupported", label)
+                continue
+            P = {e: np.array(lf.get_psub_for_edge(e).array, float) for e in U.EDGES}
+            n = len(tab["root"])
+            for node, path in PATHS.items():
+                reqs.append(("path", dict(n=n, mp=[rat(float(x)) for x in tab["root"]], Ps=[U.rmat(P[e]) for e in path])))
+                meta.append((label, kind, node, path, tab))
+    for (label, kind, node, path, tab), rep in zip(meta, ctx.driver.batch(reqs)):
+        out["evaluations"] += 1
+        bump(out, "path_kind", kind)
+        bump(out, "path_len", len(path))
+        inp = dict(model=label, node=node, path=path)
+        if "dists" not in rep:
+            add_failure(out, "corr", "path: driver error", inp, "dists", rep, sig="corr:path:err")
+            continue
+        dists = [[unrat(x) for x in v] for v in rep["dists"]]
+        if [unrat(x) for x in rep["viaProduct"]] != dists[-1]:  # an instance of path_chapman_kolmogorov, exactly
+            add_failure(out, "corr", "path: fold != product form (contradicts path_chapman_kolmogorov)", inp, "equal", "differ", sig="corr:path:ck")
+        ok = True
+        for k, nd in enumerate(["root"] + path):
+            d = max(abs(float(x) - float(y)) for x, y in zip(dists[k], tab[nd]))
+            if not d <= 1e-12:
+                ok = False
+                add_failure(out, "corr", "node motif probs: model path fold != get_motif_probs_by_node", dict(inp, at=nd),
+                            [float(x) for x in dists[k]], [float(x) for x in tab[nd]], sig=f"corr:path:{kind}")
+        if ok and max(abs(float(x) - float(y)) for x, y in zip(dists[-1], dists[0])) > 1e-6:
+            out["nontrivial"].add(("path", label, node, float(dists[-1][0])))
+
+
+def _ens_reference(p0, Q, t):
+    """-p0 . int_0^t exp(Qs) ds . diag(Q) by the power series of the integral (scaled by halving: I(2h) = I(h) + exp(Qh) I(h))"""
+    np = _np()
+    n = Q.shape[0]
+    norm = float(np.abs(Q).sum(axis=1).max()) * t
+    j = max(0, int(math.ceil(math.log2(max(norm, 1e-300)))) + 1) if norm > 0.5 else 0
+    h = t / 2 ** j
+    A = Q * h
+    term = np.identity(n) * h  # A^k h / (k+1)!
+    I = term.copy()
+    E = np.identity(n)
+    tk = np.identity(n)
+    for k in range(1, 30):
+        tk = tk @ A / k
+        E = E + tk
+        term = term @ A / (k + 1)
+        I = I + term
+    for _ in range(j):
+        I = I + E @ I
+        E = E @ E
+    return -float(p0 @ I @ np.diag(Q))
+
+
+def _check_nodes(out, label, sm, lf, inp, stationary, kind):
+    """through the public API: the distribution at every node is a distribution, is the parent's times the edge's psub
+    (Chapman-Kolmogorov down the tree), equals the motif probs at every node for a stationary process; expected numbers of
+    substitutions: the branch length for a stationary process, -p0 int exp(Qs) ds diag(Q) otherwise"""
+    np = _np()
+    tab = _node_table(lf)
+    if tab is None:
+        bump(out, "nodes_unsupported", sm._mprob_model)
+        return
+    out["evaluations"] += 1
+    bump(out, "nodes_checked", kind)
+    parent = {"a": "root", "b": "root", "e": "root", "c": "e", "d": "e"}
+    n = len(tab["root"])
+    for nd, v in tab.items():
+        tot = float(v.sum())
+        if not abs(tot - 1) <= 1e-9 or not v.min() >= -1e-12:
+            _fail(out, "spec", "distribution at a node is not a probability vector", dict(inp, node=nd), 1.0, [tot, float(v.min())], sig=f"nodes-distribution:{kind}")
+    if U.is_discrete(sm) or not isinstance(sm, _trclass()):
+        for nd, par in parent.items():
+            P = np.array(lf.get_psub_for_edge(nd).array, float)
+            d = float(np.abs(tab[par] @ P - tab[nd]).max())
+            if not d <= 1e-10:
+                _fail(out, "spec", "distribution at a node is not parent distribution x psub of the edge", dict(inp, node=nd, diff=d), 0.0, d,
+                      sig=f"nodes-propagation:{kind}")
+    if stationary:
+        d = max(float(np.abs(v - tab["root"]).max()) for v in tab.values())
+        if not d <= REL_ATOL:
+            _fail(out, "spec", "stationary model: the distribution changes along the tree", dict(inp, diff=d), 0.0, d, sig="nodes-stationary")
+    if U.is_discrete(sm):
+        return
+    try:
+        with warnings.catch_warnings():
+            warnings.simplefilter("ignore")
+            ens = lf.get_lengths_as_ens()
+    except NotImplementedError:
+        return
+    for e, par in parent.items():
+        t = float(lf.get_param_value("length", edge=e))
+        Q = np.array(lf.get_rate_matrix_for_edge(e, calibrated=True).array, float)
+        if stationary:
+            ref, tol, what = t, 1e-9 * max(1.0, t), "stationary"
+        else:
+            if float(np.abs(Q).sum(axis=1).max()) * t > 60 or _eig_cond(Q) > 1e4:
+                continue
+            ref = _ens_reference(tab[par], Q, t)
+            tol, what = 1e-4 * max(1.0, abs(ref)), "non-stationary"
+        bump(out, "ens_checked", what)
+        got = float(ens[e])
+        if not abs(got - ref) <= tol:
+            _fail(out, "spec", f"expected number of substitutions on an edge ({what} process) is wrong", dict(inp, edge=e, t=t, diff=abs(got - ref)),
+                  ref, got, sig=f"ens:{what}")
+
+
+def _check_all_api(out, label, sm, lf, inp, wp, kind):
+    """the collective accessors named by the property: get_all_psubs() / get_all_rate_matrices(calibrated=...) against the
+    per-edge accessors and against each other: expm of the uncalibrated Q of a scope is that scope's psub; every calibrated
+    Q has unit expected rate; with rate classes the bprob-weighted expected substitutions of an edge equal its length"""
+    np = _np()
+    from cogent3.maths.matrix_exponentiation import PadeExponentiator
+
+    with warnings.catch_warnings():
+        warnings.simplefilter("ignore")
+        psubs = {tuple(str(x) for x in k): np.array(v.array, float) for k, v in lf.get_all_psubs().items()}
+        if U.is_discrete(sm):
+            qc = qu = {}
+        else:
+            qc = {tuple(str(x) for x in k): np.array(v.array, float) for k, v in lf.get_all_rate_matrices(calibrated=True).items()}
+            qu = {tuple(str(x) for x in k): np.array(v.array, float) for k, v in lf.get_all_rate_matrices(calibrated=False).items()}
+    out["evaluations"] += 1
+    bump(out, "all_api_checked", kind)
+    bins = list(getattr(lf, "bin_names", None) or [])
+    multi = len(bins) > 1
+    for key, P in psubs.items():
+        edge = key[-1]
+        kw = dict(bin=key[0]) if (multi and len(key) == 2) else {}
+        d = float(np.abs(np.array(lf.get_psub_for_edge(edge, **kw).array, float) - P).max())
+        if not d <= 1e-12:
+            _fail(out, "spec", "get_all_psubs differs from get_psub_for_edge", dict(inp, scope=list(key), diff=d), 0.0, d, sig=f"all-psubs:{kind}")
+        if key in qu:
+            if float(np.abs(qu[key]).sum(axis=1).max()) <= 60:
+                d = float(np.abs(PadeExponentiator(qu[key])(1.0) - P).max())
+                if not d <= REL_ATOL and _eig_cond(qu[key]) < 1e4:
+                    _fail(out, "spec", "expm of the uncalibrated rate matrix of a scope is not the psub of that scope", dict(inp, scope=list(key), diff=d),
+                          0.0, d, sig=f"all-Q-psub:{kind}")
+    for key, Q in qc.items():
+        rate = -float(np.dot(wp, np.diag(Q)))
+        if not abs(rate - 1.0) <= 1e-9:
+            _fail(out, "spec", "get_all_rate_matrices(calibrated=True): expected rate at the motif probabilities is not one", dict(inp, scope=list(key)),
+                  1.0, rate, sig=f"all-Q-calibration:{kind}")
+        if key and key[-1] in U.EDGES:
+            kw = dict(bin=key[0]) if (multi and len(key) == 2) else {}
+            d = float(np.abs(np.array(lf.get_rate_matrix_for_edge(key[-1], calibrated=True, **kw).array, float) - Q).max())
+            if not d <= 1e-12:
+                _fail(out, "spec", "get_all_rate_matrices differs from get_rate_matrix_for_edge", dict(inp, scope=list(key), diff=d), 0.0, d,
+                      sig=f"all-Q-edge:{kind}")
+    if qu:
+        bpr = np.array(lf.get_param_value("bprobs"), float) if multi else np.array([1.0])
+        for e in U.EDGES:
+            t = float(lf.get_param_value("length", edge=e))
+            keys = [(b, e) for b in bins] if multi else [(e,)]
+            if not all(k in qu for k in keys):
+                bump(out, "all_api_scope_missing", kind)
+                continue
+            ens = float(sum(w * -np.dot(wp, np.diag(qu[k])) for w, k in zip(bpr, keys)))
+            if not abs(ens - t) <= 1e-9 * max(1.0, t):
+                _fail(out, "spec", "uncalibrated rate matrices: (bin-probability weighted) expected substitutions of an edge differ from its length",
+                      dict(inp, edge=e, t=t, bins=len(bins)), t, ens, sig=f"all-Q-length:{kind}")
+
+
+def _trclass():
+    from cogent3.evolve import substitution_model as sub
+
+    return sub.TimeReversible
+
+
+def _check_inst_spec(out, ctx, rng):
+    """instantaneous-change masks of the real code against the documented meaning (`_spec_inst`): the stub box and the
+    masks of every supplied / user-built model"""
+    for codon, words in _inst_cases(ctx, rng):
+        real = _real_inst_mask(words, codon)
+        out["evaluations"] += 1
+        for i, x in enumerate(words):
+            for j, y in enumerate(words):
+                want = int(_spec_inst(x, y, codon))
+                if real[i][j] != want:
+                    _fail(out, "spec", "instantaneous-change predicate differs from its documented meaning",
+                          dict(x=x, y=y, codon=codon, gapmotif="-" * len(x)), want, real[i][j], sig=f"inst-mask:{'codon' if codon else 'word'}")
+                    break
+            else:
+                continue
+            break
+    named, user = _labels()
+    from cogent3.evolve import substitution_model as sub
+
+    for label in [n for _, n in named] + user:
+        sm = _get_model(out, label)
+        if sm is None or U.is_discrete(sm) or U.USER.get(label, {}).get("cls") == "solved" or isinstance(sm, sub.Empirical):
+            continue  # (an empirical model's mask is the support of its published matrix)
+        words = [str(w) for w in sm.get_alphabet()]
+        mask = _np().asarray(sm._instantaneous_mask)
+        codon = isinstance(sm, sub._Codon)
+        out["evaluations"] += 1
+        bump(out, "inst_mask_checked", "codon" if codon else f"word:L={len(words[0])}")
+        bad = [(x, y) for i, x in enumerate(words) for j, y in enumerate(words) if bool(mask[i][j]) != _spec_inst(x, y, codon)]
+        if bad:
+            _fail(out, "spec", "instantaneous mask of a model differs from the documented meaning", dict(model=label, x=bad[0][0], y=bad[0][1]),
+                  _spec_inst(bad[0][0], bad[0][1], codon), not _spec_inst(bad[0][0], bad[0][1], codon), sig=f"inst-mask-model:{'codon' if codon else 'word'}")
+
+
+# --------------------------------------------------------------------------
 # spec_check: the real implementation against the property itself
 # --------------------------------------------------------------------------
 GC = "FFLLSSSSYY**CC*WLLLLPPPPHHQQRRRRIIIMTTTTNNKKSSRRVVVVAAAADDEEGGGG"  # standard code, TCAG order
@@ -669,30 +1149,26 @@ def _check_Q(out, label, sm, lf, edge, inp, reversible, stationary):
 
 
 def _backends(Q):
+    """exponentiator objects for Q under each setting, obtained the way a likelihood function obtains them
+    (ExpDefn.calc(expm) applied to Q); `refused[name]` = the exception class when the constructor raised"""
     from cogent3.evolve.substitution_calculation import ExpDefn
-    from cogent3.maths.matrix_exponentiation import (
-        CheckedExponentiator,
-        FastExponentiator,
-        PadeExponentiator,
-        TaylorExponentiator,
-    )
+    from cogent3.maths.matrix_exponentiation import TaylorExponentiator
 
     res = {}
     with warnings.catch_warnings():
         warnings.simplefilter("ignore")
-        for name, mk in (
-            ("eigen", FastExponentiator),
-            ("checked", CheckedExponentiator),
-            ("pade", PadeExponentiator),
-            ("either", lambda q: ExpDefn.calc(None, "either")(q)),
-            ("taylor", TaylorExponentiator),
-        ):
+        for name in ("eigen", "checked", "pade", "either", "taylor"):
             try:
+                mk = TaylorExponentiator if name == "taylor" else ExpDefn.calc(None, name)
                 res[name] = mk(Q)
-            except (ArithmeticError, _np().linalg.LinAlgError):
-                # refusing is allowed: "eigen failed precision test" / singular eigenvector matrix
+            except (ArithmeticError, _np().linalg.LinAlgError) as e:
+                # refusing is allowed for the eigen routes: "eigen failed precision test" / singular eigenvector matrix
                 res[name] = None
+                _REFUSED[(id(Q), name)] = type(e).__name__
     return res
+
+
+_REFUSED = {}
 
 
 def _eig_cond(Q):
@@ -721,6 +1197,11 @@ def _check_P(out, ctx, label, sm, Q, wp, lengths, inp, reversible, stationary, r
             continue
         if E is None:
             bump(out, "backend_unavailable", name)
+            if name in ("either", "pade"):
+                # 'either' exists to fall back to Pade when the eigen route fails, Pade's constructor cannot fail
+                _fail(out, "spec", f"expm='{name}' refused a rate matrix ({_REFUSED.get((id(Q), name))}) instead of supplying a transition matrix",
+                      dict(inp, backend=name, s=s, t=t, norm=norm * (s + t), eig_cond=cond), "a transition matrix", _REFUSED.get((id(Q), name)),
+                      sig=f"P-refused:{name}")
             continue
         if name == "taylor" and norm * (s + t) > 12:
             continue
@@ -834,7 +1315,9 @@ def _search_backends(out, ctx, rng, iters, refs):
 
 def _check_discrete(out, label, sm, rng):
     np = _np()
-    lf, _ = U.make_lf(sm, rng)
+    lf, _, kind = _hetero_lf(sm, label, rng)
+    _check_nodes(out, label, sm, lf, dict(model=label), False, kind)
+    _check_all_api(out, label, sm, lf, dict(model=label), None, kind)
     for e in U.EDGES:
         P = np.array(lf.get_psub_for_edge(e).array)
         out["evaluations"] += 1
@@ -912,6 +1395,18 @@ def _check_rate_classes(out, ctx, rng, reps):
         d = np.abs(PadeExponentiator(Q)(t * rates[-1]) - P).max()
         if not d <= REL_ATOL:
             _fail(out, "spec", "bin psub is not exp(rate*length*Q)", dict(distribution=dist), 0.0, float(d), sig=f"rates-psub:{dist}")
+        _check_all_api(out, f"HKY85+{dist}", sm, lf, dict(distribution=dist, bprobs=bpr.tolist(), bins=nb), np.array(U.read_mprobs(lf, sm)[0]), f"bins:{dist}")
+        # calibration of the mixture (model: mixtureENS, theorem mixture_ens_calibrated): sum_b bprob_b * ENS(rate_b * t * Q) = t
+        if ctx.driver is not None:
+            pi = U.read_mprobs(lf, sm)[0]
+            rep = ctx.driver.batch([("mixens", dict(n=4, pi=[rat(x) for x in pi], Q=U.rmat(Q), t=rat(t), w=[rat(float(x)) for x in bpr],
+                                                     r=[rat(float(x)) for x in rates]))])[0]
+            out["evaluations"] += 1
+            ens = float(unrat(rep["ens"])) if "ens" in rep else float("nan")
+            bump(out, "mixture_ens_checked", dist)
+            if not abs(ens - t) <= 1e-9 * max(1.0, t):
+                _fail(out, "spec", "rate-class mixture: expected substitutions per site differ from the branch length",
+                      dict(distribution=dist, bprobs=bpr.tolist(), rates=rates.tolist(), t=t), t, ens, sig=f"rates-mixture-ens:{dist}")
 
 
 def _reference_check(out, ctx, refs):
@@ -953,6 +1448,8 @@ def _reference_check(out, ctx, refs):
 def _spec_one_model(out, ctx, rng, label, sm, reps, refs):
     from cogent3.evolve import substitution_model as sub
 
+    np = _np()
+
     if U.is_discrete(sm):
         _check_discrete(out, label, sm, rng)
         return
@@ -977,6 +1474,17 @@ def _spec_one_model(out, ctx, rng, label, sm, reps, refs):
             _check_P(out, ctx, label, sm, Q, wp, (s, t), inp, reversible, stationary, refs)
         if n <= 25 and r == 0:
             _check_lf_psubs(out, label, sm, rng, info)
+        if r == 0:
+            _check_nodes(out, label, sm, lf, inp, stationary, "homogeneous")
+            if n <= 25:
+                _check_all_api(out, label, sm, lf, inp, wp, "homogeneous")
+            if n <= 25 or not isinstance(sm, sub.TimeReversible):
+                lf2, info2, kind = _hetero_lf(sm, label, rng)
+                if kind != "homogeneous":
+                    inp2 = dict(model=label, params=info2["params"], mprobs=info2.get("mprobs") or info2.get("wordprobs"), edges="per-edge parameter values")
+                    _check_nodes(out, label, sm, lf2, inp2, stationary, kind)
+                    if n <= 25:
+                        _check_all_api(out, label, sm, lf2, inp2, np.array(_wprobs(sm, U.read_mprobs(lf2, sm))), kind)
         if len(out["samples"]) < 4 and n == 4 and info["params"]:
             out["samples"].append(dict(model=label, params=info["params"], mprobs=info["mprobs"], Q=Q.tolist()))
 
@@ -1017,6 +1525,7 @@ def spec_check(ctx, budget):
                         "a valid rate / transition matrix", f"{type(e).__name__}: {str(e)[:200]}", sig=f"raised:{type(e).__name__}:{where}")
     _search_backends(out, ctx, rng, 240 * budget, refs)
     _check_rate_classes(out, ctx, rng, 5 * budget)
+    _check_inst_spec(out, ctx, ctx.subrng(f"instspec:{budget}"))
     # exact-reference accuracy check for a subset (all small ones, a few large)
     small = [r for r in refs if r[2].shape[0] <= 5]
     mid = [r for r in refs if 5 < r[2].shape[0] <= 25]
